@@ -100,6 +100,18 @@ claim("C12", "proof",
       "for-loops/compound assignments and try_lift of expressions are outside the model; correspondence is sampled.",
       "Lean 4 proof (invariant by mutual induction) + model/CFG equality + executable well-formedness predicate per instance", "5 (C12)")
 
+claim("C13", "proof",
+      "Lean 4 theorem (Props/C13.lean, mutual structural induction over every statement tree): statement conservation in program order "
+      "— the statements of the lifted blocks concatenated in index order are exactly the source statements in pre-order, one branch "
+      "statement per if/while; nothing lost, duplicated or reordered. PARTIAL: the trace-inclusion clause is stated "
+      "(C13_trace_statement) but not yet proved for all programs; it is decided per instance: both executable semantics (source execution "
+      "ending at the first return; graph walk taking the recorded false target or the other successor) are evaluated on every real AST/CFG "
+      "pair (pre-SSA and SSA) under all 2^k decision sequences, and the parser's for/compound-assignment expansions are compared with "
+      "hand expansions.",
+      "Lean kernel + standard axioms; trace inclusion is exploration (bounded decision sequences) on the real CFGs; statements are identified by "
+      "source range.",
+      "Lean 4 proof (conservation in order) + exhaustive bounded trace comparison on real CFGs", "5 (C13)")
+
 ALL = ["C%02d" % i for i in range(1, 21)]
 def main():
     checks = []
